@@ -734,7 +734,7 @@ func (r *RIB) callResolvedEntryHook(optype constants.OpType, netinst string, aft
 	if err != nil {
 		return err
 	}
-	verifTrace("resolved.spawn", optype, netinst, aft, key)
+	verifTrace("resolved.spawn", ribs, optype, netinst, aft, key)
 	go r.resolvedEntryHook(ribs, optype, netinst, aft, key)
 	return nil
 }
